@@ -21,7 +21,9 @@ BUILD_LIB = os.path.join(LEAN_DIR, ".lake", "build", "lib", "lean")
 PROOFS = ["PQ/Lemmas/SrcEquivBase.lean", "PQ/Lemmas/SrcEquiv.lean", "PQ/Lemmas/SrcEquivStore.lean",
           "PQ/Lemmas/SrcEquivDQ.lean", "PQ/Lemmas/SrcEquivOps.lean", "PQ/Lemmas/SrcEquivStore2.lean",
           "PQ/Lemmas/SrcEquivPush.lean", "PQ/Lemmas/SrcEquivOps2.lean", "PQ/Lemmas/SrcEquivBulk.lean",
-          "PQ/Lemmas/SrcEquivBulkQ.lean", "PQ/Lemmas/SrcEquivExtend.lean", "PQ/Lemmas/SrcEquivIter.lean", "PQ/Lemmas/SrcEquivPanic.lean"]
+          "PQ/Lemmas/SrcEquivBulkQ.lean", "PQ/Lemmas/SrcEquivExtend.lean", "PQ/Lemmas/SrcEquivIter.lean", "PQ/Lemmas/SrcEquivPanic.lean",
+          "PQ/Lemmas/SrcEquivPanic2.lean", "PQ/Lemmas/SrcEquivPanicPQ.lean", "PQ/Lemmas/SrcEquivPanicDQ.lean",
+          "PQ/Lemmas/SrcEquivPanicBulk.lean", "PQ/Lemmas/SrcEquivPanicExtend.lean"]
 
 ST, PQ, DQ = "src/store.rs", "src/priority_queue/mod.rs", "src/double_priority_queue/mod.rs"
 # (name, file, old text, new text, which occurrence (0-based), kind)   kind: "mutant" | "neutral"
